@@ -157,8 +157,8 @@ ActCheckRequest(x) ==
   ELSE IF r.ver # 7 THEN Fail(x, "incompatible peerswap version")
   ELSE IF r.amount * 1000 < Cfg.min_swap_msat THEN Fail(x, "minimum swap amount")
   ELSE IF r.assetcls # "own" THEN Fail(x, "invalid asset or network")
-  ELSE IF ~(Cfg.accept_all \/ o.allowed) THEN Fail(x, "peer not allowed")
-  ELSE IF o.susp \/ x.nd.suspfile THEN Fail(x, "peer not allowed")
+  ELSE IF ~(Cfg.accept_all \/ (o.allowed /\ d.peer = "peer")) THEN Fail(x, "peer not allowed")   \* the policy entries of the model name the counterparty "peer"
+  ELSE IF (o.susp \/ x.nd.suspfile) /\ d.peer = "peer" THEN Fail(x, "peer not allowed")
   ELSE Out(x, "cont")
 
 SetAnchor(x) ==   \* setLiquidPaymentWindowAnchor
